@@ -817,6 +817,13 @@ fn block_worker(cases: &[Value], part: usize, parts: usize, seed: u64) -> (u64, 
         n += 1;
         let exp = &case["exp"];
         let ab = &case["block"];
+        // the random choices for a case (which field is malformed how, which bit of the hash flips, ...)
+        // depend on the seed and the case only, so that a replay of the case alone repeats them
+        let mut hsh: u64 = 0xcbf29ce484222325;
+        for b in format!("{}{}", case["prior"], ab).bytes() {
+            hsh = (hsh ^ b as u64).wrapping_mul(0x100000001b3);
+        }
+        mat.rng = ChaChaRng::seed_from_u64(seed.wrapping_mul(0x9e3779b97f4a7c15) ^ hsh);
         let act = POOLS.iter().filter(|p| ab["act"][**p].as_bool().unwrap()).count();
         let base = era_base[act];
         let height = base + ab["h"].as_u64().unwrap() as u32;
